@@ -283,10 +283,18 @@ func genSpec(rc *RC, ns, marker string, stanzaOnly bool, big bool) *xSpec {
 func runC05(rc *RC) {
 	ch := rc.Ch
 	opts := E2Opts{S2S: ch.Chance("workload", 1, 3), Chunk: ch.Chance("workload", 1, 2)}
+	if !opts.S2S && ch.Chance("workload", 1, 4) {
+		opts.WS = true
+	}
 	strat := rc.S.ConfigureStrategy()
 	e := rc.NewE2(opts)
 	if e == nil {
 		return
+	}
+	// WebSocket framing: no enclosing element, every top-level element declares its namespace
+	stanzaDepth, nsd := 2, ""
+	if opts.WS {
+		stanzaDepth, nsd = 1, ` xmlns="jabber:client"`
 	}
 	from := ""
 	if opts.S2S {
@@ -308,7 +316,7 @@ func runC05(rc *RC) {
 		plans = append(plans, pl)
 	}
 	nPings := ch.Range("workload", 0, 3)
-	rc.Describe("strategy=%s s2s=%v chunk=%v callers=%d pings=%d", strat, opts.S2S, opts.Chunk, nCallers, nPings)
+	rc.Describe("strategy=%s s2s=%v ws=%v chunk=%v callers=%d pings=%d", strat, opts.S2S, opts.WS, opts.Chunk, nCallers, nPings)
 
 	perform := func(c *c05Call) {
 		ctx, cancel := context.WithTimeout(e.Ctx, 10*time.Second)
@@ -497,10 +505,10 @@ func runC05(rc *RC) {
 			switch t := tok.(type) {
 			case xml.StartElement:
 				depth++
-				if depth == 2 && t.Name.Local == "iq" {
+				if depth == stanzaDepth && t.Name.Local == "iq" {
 					x := Elem{Start: t}
 					if x.Attr("type") == "get" {
-						e.PeerWrite(fmt.Sprintf(`<iq type="result" id="%s"/>`, x.Attr("id")))
+						e.PeerWrite(fmt.Sprintf(`<iq%s type="result" id="%s"/>`, nsd, x.Attr("id")))
 					}
 				}
 			case xml.EndElement:
@@ -512,7 +520,7 @@ func runC05(rc *RC) {
 	pinger := rc.Spawn("pinger", func() {
 		for i := 0; i < nPings; i++ {
 			simrt.Sleep(time.Duration(ch.Range("workload", 0, 3)) * time.Millisecond)
-			e.PeerWrite(fmt.Sprintf(`<message id="ping%d" from="peer@example.net"/>`, i))
+			e.PeerWrite(fmt.Sprintf(`<message%s id="ping%d" from="peer@example.net"/>`, nsd, i))
 		}
 	})
 	tasks = append(tasks, pinger)
@@ -547,7 +555,7 @@ func runC05(rc *RC) {
 
 	// ---- oracle ----
 	tap := e.SUT.Out().Tap
-	w := ParseWire(tap)
+	w := e.ParseOut()
 	rc.Check("C05.c1", "wire-not-well-formed", w.Err == nil && !w.Partial && w.TopText == "", "the output stream does not parse as a sequence of complete top-level elements: err=%v partial=%v text=%q near %q", w.Err, w.Partial, w.TopText, tail(tap[:min(len(tap), w.ErrOff+60)], 160))
 	finalIdx := -1
 	for i, x := range w.Elems {
@@ -599,6 +607,10 @@ func runC05(rc *RC) {
 		}
 	}
 	hdr := string(tap[:e.HeaderLen()])
+	if opts.WS {
+		// no enclosing element, hence no inherited default namespace: only what the element itself declares
+		hdr = `<stream:stream xmlns:stream='http://etherx.jabber.org/streams'>`
+	}
 	for _, c := range calls {
 		if !c.done || c.err != nil {
 			if c.done && c.err != nil {
@@ -659,7 +671,7 @@ func runC05(rc *RC) {
 			rc.Failf("C05.c2", "element-differs:"+sig, "%s(%s): element on the wire differs from the argument at token %d: got %s want %s; wire: %s", c.kind, c.marker, d, clip(g, 200), clip(wv, 200), clip(string(tap[w.Elems[idx[0]].Off:w.Elems[idx[0]].End]), 400))
 		}
 	}
-	rc.Spawn("peer-close", func() { e.PeerWrite(closeTag) })
+	rc.Spawn("peer-close", func() { e.PeerWrite(e.CloseTag()) })
 	rc.S.Run(func() bool { return e.ServeDone }, 20000, time.Minute)
 	stuck := rc.Teardown()
 	rc.CheckPanics("C05.c1")
